@@ -525,9 +525,6 @@ Proof.
   rewrite <- (psort_map wrel_of wrel_cmp rel_cmp) by reflexivity. reflexivity.
 Qed.
 
-Definition subst_node_of (s : str * list str) : rtree := subst_node (fst s) (snd s).
-Definition subst_text_of (s : str * list str) : str := subst_text (fst s) (snd s).
-
 Lemma sorted_subst_nodes f :
   psort by_text (substvar_nodes (rtree_of f)) = map subst_node_of (sorted_substs f).
 Proof.
@@ -700,4 +697,113 @@ Proof.
   generalize 0%nat. revert x. induction r as [|y r IH]; intros x i; [reflexivity|].
   change (sep_by [Tok COMMA [44%N]; sp] (x :: y :: r)) with (x :: [Tok COMMA [44%N]; sp] ++ sep_by [Tok COMMA [44%N]; sp] (y :: r)).
   rewrite (IH y (S i)). reflexivity.
+Qed.
+
+(* ------------------------------------------------------------------ the content in C10's vocabulary *)
+Lemma wrel_c_of r : wf_rel r = true -> wrel_c (wrel_of r) = relx_acc (rel_content r).
+Proof.
+  intros H. unfold wf_rel in H. andb_split H. unfold wrel_c, wrel_of, relx_acc, rel_content.
+  cbn [w_name w_qual w_ver w_archs w_profs x_name x_qual x_ver x_archs x_profs]. f_equal.
+  - destruct (r_ver r) as [v|]; [|reflexivity]. cbn [opt_ok option_map] in *.
+    destruct (wver_of_some v W2) as (pv & Ew & _ & Es). rewrite Ew. cbn [option_map fst snd]. rewrite Es. reflexivity.
+  - destruct (r_archs r) as [g|]; [|reflexivity]. cbn [option_map]. rewrite map_map. reflexivity.
+Qed.
+
+Theorem wcontent_printed a f : wf_rfield a f = true ->
+  map (map wrel_c) (field_wcontent f) = fst (rcontent_acc f).
+Proof.
+  intros H. unfold rcontent_acc, field_wcontent. cbn [fst]. rewrite rcontent_rels. cbn [fst]. rewrite !map_map.
+  pose proof (field_rels_wf a f H) as Hw. rewrite Forall_forall in Hw. apply map_ext_in. intros e He.
+  rewrite !map_map. apply map_ext_in. intros r Hr. destruct (Hw e He) as [_ Hf]. rewrite Forall_forall in Hf.
+  apply wrel_c_of, Hf, Hr.
+Qed.
+
+(* ------------------------------------------------------------------ the relation branch of format_field *)
+Theorem ctl_rel_wf f : wf_rfield true f = true -> field_safe f = true ->
+  ctl_rel fixed (rrender f) = Ok (text (ws_tree f)) /\
+  ctl_rel fixed (text (ws_tree f)) = Ok (text (ws_tree f)).
+Proof.
+  intros H Hs. pose proof (canon_field_wf true f H) as Hc.
+  destruct (text_ws_tree true f H) as [_ Et]. destruct (ws_tree_idem true f H Hs) as [_ Ei].
+  unfold ctl_rel. cbn [v_ctl_subst fixed]. split.
+  - rewrite (parse_rrender true f H).
+    rewrite (ws_rtree_of true f H Hs). reflexivity.
+  - rewrite Et. rewrite (parse_rrender true (canon_field f) Hc), Ei. cbn [rmap bind]. rewrite Et. reflexivity.
+Qed.
+
+(* ------------------------------------------------------------------ everything about one field *)
+Definition sorted_shape (es : list (list wrel)) : Prop :=
+  Sorted (cmp_le wentry_cmp) es /\ Forall (fun e => e <> [] /\ Sorted (cmp_le wrel_cmp) e) es.
+
+Lemma sorted_content_nonempty es : Forall (fun e => e <> []) es -> Forall (fun e => e <> []) (sorted_content es).
+Proof.
+  intros H. unfold sorted_content. rewrite Forall_forall in *. intros e He.
+  apply (Permutation_in _ (Permutation_sym (psort_perm wentry_cmp _))) in He. apply in_map_iff in He.
+  destruct He as (e0 & <- & He0). intros E. specialize (H e0 He0). apply H.
+  pose proof (psort_perm wrel_cmp e0) as P. rewrite E in P. apply Permutation_sym, Permutation_nil in P. exact P.
+Qed.
+
+Lemma field_wcontent_nonempty a f : wf_rfield a f = true -> Forall (fun e => e <> []) (field_wcontent f).
+Proof.
+  intros H. pose proof (field_rels_wf a f H) as Hw. unfold field_wcontent. rewrite Forall_forall in *.
+  intros e He. apply in_map_iff in He. destruct He as (e0 & <- & He0). destruct (Hw e0 He0) as [Hne _].
+  destruct e0; [congruence|discriminate].
+Qed.
+
+Theorem sorted_shape_content a f : wf_rfield a f = true -> sorted_shape (sorted_content (field_wcontent f)).
+Proof.
+  intros H. destruct (sorted_content_sorted (field_wcontent f)) as [S1 S2]. split; [exact S1|].
+  pose proof (sorted_content_nonempty _ (field_wcontent_nonempty a f H)) as Hne.
+  rewrite Forall_forall in *. intros e He. split; [apply Hne, He|apply S2, He].
+Qed.
+
+Theorem ws_reparse a f : wf_rfield a f = true -> field_safe f = true ->
+  wf_rfield a (canon_field f) = true /\
+  text (ws_tree f) = rrender (canon_field f) /\
+  parse_relaxed (text (ws_tree f)) a = Ok (rtree_of (canon_field f), 0) /\
+  (a = false -> relations_from_str (text (ws_tree f)) = Ok (rtree_of (canon_field f))) /\
+  (exists c, racc (rtree_of (canon_field f)) = Ok c /\ racc_view c = rcontent (canon_field f)) /\
+  same_content (rcontent f) (rcontent (canon_field f)).
+Proof.
+  intros H Hs. pose proof (canon_field_wf a f H) as Hc. destruct (text_ws_tree a f H) as [_ Et].
+  split; [exact Hc|]. split; [exact Et|]. rewrite Et.
+  split; [apply parse_rrender, Hc|]. split; [intros ->; apply from_str_rrender, Hc|].
+  split; [|apply (same_content_canon a f H)].
+  exists (rcontent_acc (canon_field f)). split; [apply (racc_rtree_of a), Hc|apply (racc_view_content a), Hc].
+Qed.
+
+(* ------------------------------------------------------------------ (2) in one statement *)
+Lemma perm_concat {A} (a b : list (list A)) : Permutation a b -> Permutation (concat a) (concat b).
+Proof.
+  induction 1 as [|x l l' _ IH|x y l|l l' l'' _ IH1 _ IH2]; cbn [concat].
+  - constructor.
+  - apply Permutation_app_head, IH.
+  - rewrite !app_assoc. apply Permutation_app_tail, Permutation_app_comm.
+  - eapply Permutation_trans; eassumption.
+Qed.
+
+Lemma sorted_content_perm es : Permutation (concat es) (concat (sorted_content es)).
+Proof.
+  unfold sorted_content. eapply Permutation_trans; [|apply perm_concat, psort_perm].
+  induction es as [|e l IH]; [constructor|]. cbn [map concat]. apply Permutation_app; [apply psort_perm|exact IH].
+Qed.
+
+Theorem ws_sorted a f : wf_rfield a f = true -> field_safe f = true ->
+  exists t' es', relations_ws fixed (rtree_of f) = Ok t' /\ wacc t' = Ok es' /\
+    es' = sorted_content (field_wcontent f) /\ sorted_shape es' /\
+    Permutation (concat (field_wcontent f)) (concat es') /\
+    (forall e, In e es' -> forall x y, In x e -> In y e ->
+       relation_cmp (wrel_tree fixed x) (wrel_tree fixed y) = Ok (wrel_cmp x y)) /\
+    (forall x y, In x es' -> In y es' ->
+       entry_cmp fixed (entry_tree fixed x) (entry_tree fixed y) = Ok (wentry_cmp x y)).
+Proof.
+  intros H Hs. exists (ws_tree f), (sorted_content (field_wcontent f)).
+  pose proof (wacc_ok _ _ (wacc_rtree_of a f H)) as Hok.
+  pose proof (sorted_content_ok _ Hok) as Hok'. pose proof (sorted_content_safe _ Hs) as Hs'.
+  unfold content_ok in Hok'. rewrite Forall_forall in Hok'. unfold content_safe in Hs'. rewrite forallb_forall in Hs'.
+  split; [apply (ws_rtree_of a f H Hs)|]. split; [apply (wacc_ws_tree a f H Hs)|]. split; [reflexivity|].
+  split; [apply (sorted_shape_content a f H)|]. split; [apply sorted_content_perm|]. split.
+  - intros e He x y Hx Hy. specialize (Hok' e He). specialize (Hs' e He). unfold entry_ok in Hok'. rewrite Forall_forall in Hok'.
+    rewrite forallb_forall in Hs'. apply relation_cmp_tree; auto.
+  - intros x y Hx Hy. apply entry_cmp_tree; auto.
 Qed.
